@@ -55,6 +55,7 @@ def run(ck):
 
     cases = J.run_harness(ck, "c09", n)
     accepted = 0
+    shrunk = set()
     for c in cases:
         o = c["obs"]
         trivial = len(bytes.fromhex(c["in"])) == 0 or (c["op"] in ("tojson", "unmarshal") and not o.get("ok")
@@ -64,9 +65,14 @@ def run(ck):
         ck.count(c["stream"] + ":" + c["op"], key=(c["op"], c["in"]), trivial=trivial)
         bad = impl_oracle(c)
         if bad:
-            ck.violation("impl:%s:%s" % (bad[0], c["stream"]), bad[1],
-                         {"case": J.slim(c), "expected": c.get("want") or "valid JSON / rejection",
-                          "observed": o})
+            key = "impl:%s:%s" % (bad[0], c["stream"])
+            rep = {"case": J.slim(c), "expected": c.get("want") or "valid JSON / rejection", "observed": o}
+            if key not in shrunk and bad[0] == "invalid-json":
+                shrunk.add(key)
+                small = J.shrink(ck, c, lambda c2: (impl_oracle(c2) or (None,))[0] == "invalid-json", budget=60)
+                if small is not c:
+                    rep["minimized_case"] = J.slim(small)
+            ck.violation(key, bad[1], rep)
     ck.coverage["accepted_documents"] = accepted
     for c in cases[:1] + cases[200:202] + cases[900:901] + cases[-2:]:
         ck.sample(J.slim(c))
